@@ -153,7 +153,25 @@ def observe(c):
         kern['pcal'] = [[int(x) for x in kernel.get_projected_calibration_acquisition_indices(qid, s)] for s in states]
         kern['missing'] = [int(rk.stop_index) for rk in kernel._repetition_kernels if rk.nr_repeated_parities == 0]
         qubits.append({'id': qid.id, 'index': qi, 'role': role, 'circuit': circ, 'all': allq, 'kernel': kern})
-    return {'qubits': qubits, 'cycle': int(kernel.kernel_cycle_length), 'build_s': dt, 'rest_s': time.time() - t,
+    # The same experiment built AGAIN from the same description, after the kernel has been queried (an analysis script asks the
+    # kernel first and builds the circuit later): the kernel must not have changed what it was given (seeded change C13-m6 — a
+    # getter that extends the caller's data-qubit list in place, so the description gains qubits).
+    again = None
+    try:
+        from qce_circuit.library.repetition_code.circuit_constructors import construct_repetition_code_multi_round_circuit as _mk
+        from qce_circuit.language import InitialStateContainer, InitialStateEnum
+        enum = {0: InitialStateEnum.ZERO, 1: InitialStateEnum.ONE}
+        anc = None if c['anc_state'] is None else [enum[b] for b in c['anc_state']]
+        state = InitialStateContainer.from_ordered_list([enum[b] for b in c['data_state']], anc)
+        import warnings as _w
+        with _w.catch_warnings():
+            _w.simplefilter('ignore')
+            c2 = _mk(list(c['rounds']), desc, state)
+            again = {q['id']: [int(x) for x in c2.get_acquisition_indices(q['index'])] for q in qubits}
+        again['#qubits'] = [len(desc.data_qubit_ids), len(desc.ancilla_qubit_ids)]
+    except Exception as ex:  # noqa
+        again = {'exc': f'{type(ex).__name__}: {str(ex)[:200]}'}
+    return {'qubits': qubits, 'cycle': int(kernel.kernel_cycle_length), 'build_s': dt, 'rest_s': time.time() - t, 'again': again,
             'data_idx': [desc.map_qubit_id_to_circuit_index(q) for q in desc.data_qubit_ids],
             'anc_idx': [desc.map_qubit_id_to_circuit_index(q) for q in desc.ancilla_qubit_ids]}
 
@@ -168,6 +186,14 @@ def predicates(c, obs):
     rounds = c['rounds']
     distinct = len(set(rounds)) == len(rounds)
     cyc = obs['cycle']
+    ag = obs.get('again')
+    if ag is not None:
+        first = {qb['id']: qb['all'] for qb in obs['qubits']}
+        first['#qubits'] = [len(obs['data_idx']), len(obs['anc_idx'])]
+        if ag != first:
+            fail('rebuild', reason='the same experiment built from the same description after the kernel queries differs',
+                 first={k: (v if k == '#qubits' else len(v)) for k, v in first.items()},
+                 again={k: (v if k in ('#qubits', 'exc') else len(v)) for k, v in ag.items()})
     for qb in obs['qubits']:
         if qb['role'] != 'anc':
             continue
